@@ -174,7 +174,7 @@ Definition construct_eqb (a b:construct) : bool :=
   | CIdentityAlter x, CIdentityAlter y =>
       list_eqb (fun a b => match a, b with Some u, Some v => Bool.eqb u v | None, None => true | _, _ => false end) x y
   | CAddColumn x, CAddColumn y | CColumnNullable x, CColumnNullable y | CColumnDefault x, CColumnDefault y
-  | CColumnComment x, CColumnComment y | CPgColumnType x, CPgColumnType y
+  | CColumnComment x, CColumnComment y | CPgColumnType x, CPgColumnType y | CPgExclude x, CPgExclude y
   | CMysqlAlterDefault x, CMysqlAlterDefault y => Bool.eqb x y
   | CMysqlModify a1 a2 a3 a4, CMysqlModify b1 b2 b3 b4 | CMysqlChange a1 a2 a3 a4, CMysqlChange b1 b2 b3 b4 =>
       Bool.eqb a1 b1 && Bool.eqb a2 b2 && Bool.eqb a3 b3 && Bool.eqb a4 b4
